@@ -477,8 +477,17 @@ class ServiceInfo(RecordUpdateListener):
         """
         new_records_futures = self._new_records_futures
         updated: bool = False
+        original_server_key = self.server_key
         for record_update in records:
             updated |= self._process_record_threadsafe(zc, record_update.new, now)
+        if original_server_key != self.server_key:
+            # An SRV record in this batch changed the server. Address records
+            # that came before it in the batch were not recognized as belonging
+            # to this service, and they are not in the cache yet, so they have
+            # to be looked at again or they are missed.
+            for record_update in records:
+                if type(record_update.new) is DNSAddress:
+                    updated |= self._process_record_threadsafe(zc, record_update.new, now)
         if updated and new_records_futures:
             _resolve_all_futures_to_none(new_records_futures)
 
